@@ -73,14 +73,25 @@ class _FieldOfDressed:
 
             dressed_new._movable = False
 
-            # Copy the python data (changes also dressed_new._xobject)
-            dressed_new.__dict__.update(value.__dict__)
-
-            # Restore correct _xobject
-            dressed_new._xobject = getattr(container._xobject, self.name)
+            # Copy the python data, keeping the xobject and the dressed
+            # children that were just built on the copy
+            _copy_python_data(source=value, dest=dressed_new)
         else:
             self.content = None
             setattr(container._xobject, self.name, value)
+
+
+def _copy_python_data(source, dest):
+    for kk, vv in source.__dict__.items():
+        if kk == "_xobject":
+            continue
+        if kk.startswith("_dressed_") and kk in dest.__dict__:
+            # nested dressed object: dest has its own (living in its
+            # own memory), only the pure python attributes are taken
+            if hasattr(vv, "_xobject") and hasattr(dest.__dict__[kk], "_xobject"):
+                _copy_python_data(source=vv, dest=dest.__dict__[kk])
+            continue
+        dest.__dict__[kk] = vv
 
 
 class JEncoder(json.JSONEncoder):
